@@ -47,11 +47,25 @@ def jOptStr : Option String → Json
   | none => Json.null
   | some s => Json.str s
 
-def getCfg (j : Json) : M Cfg := do
-  let brk ← match j.getObjVal? "break" with
-    | .ok (.str s) => parseRat s
-    | _ => pure specBreak
-  pure { specCfg with brk := brk }
+/-- break duration: "break" as a rational string (default 5) -/
+def getBreak (j : Json) : M Rat := do
+  match j.getObjVal? "break" with
+  | .ok (.str s) => parseRat s
+  | _ => pure specBreak
+
+/-- optional field "arith": "float" (default — IEEE doubles, what the code
+    computes) or "rat" (exact times, the specification side of C19) -/
+def wantsRat (j : Json) : Bool :=
+  match j.getObjVal? "arith" with
+  | .ok (.str "rat") => true
+  | _ => false
+
+def corpusOutcomeJson (o : Outcome) : Json :=
+  Json.mkObj [
+    ("raised", jOptStr (o.raised.map errName)),
+    ("corpus", jOptStr (o.corpus.map (fun ps => toStr ps.flatten))),
+    ("not_found_name", jOptStr (o.notFound.map (fun p => toStr p.1))),
+    ("not_found", jOptStr (o.notFound.map (fun p => toStr p.2.flatten)))]
 
 /-- op corpus_create: the model of `pyndl.corpus.create_corpus_from_gz` -/
 def opCorpusCreate (j : Json) : M Json := do
@@ -61,25 +75,25 @@ def opCorpusCreate (j : Json) : M Json := do
   let n ← getNat j "n_threads"
   let existing := (← asStrList (← j.getObjVal? "existing")).map ofStr
   let w : World := ⟨getBoolD j "dir_exists" true, existing⟩
-  let o := createCorpus specCfg n directory outfile w tree
-  pure (Json.mkObj [
-    ("raised", jOptStr (o.raised.map errName)),
-    ("corpus", jOptStr (o.corpus.map (fun ps => toStr ps.flatten))),
-    ("not_found_name", jOptStr (o.notFound.map (fun p => toStr p.1))),
-    ("not_found", jOptStr (o.notFound.map (fun p => toStr p.2.flatten)))])
+  if wantsRat j then
+    pure (corpusOutcomeJson (createCorpus specCfg n directory outfile w tree))
+  else
+    pure (corpusOutcomeJson (createCorpus specCfgF n directory outfile w tree))
 
 /-- op corpus_read_clean: `list(read_clean_gzfile(path, break_duration=…))` -/
 def opCorpusReadClean (j : Json) : M Json := do
   let d ← asDocument (← j.getObjVal? "doc")
-  let cfg ← getCfg j
-  match readClean cfg d with
+  let brk ← getBreak j
+  let r := if wantsRat j then readClean (cfgQ specFps brk specMarker) d
+           else readClean (cfgF specFps brk specMarker) d
+  match r with
   | .error e => pure (jErr e)
   | .ok ls => pure (Json.mkObj [("lines", jStrs (ls.map toStr))])
 
 /-- op corpus_parse_time: `_parse_time_string` as an exact rational -/
 def opCorpusParseTime (j : Json) : M Json := do
   let s ← getStr j "value"
-  match parseTime specFps (ofStr s) with
+  match parseTime (ratArith specFps specBreak) (ofStr s) with
   | .error e => pure (jErr e)
   | .ok q => pure (Json.mkObj [("time", Json.str s!"{q.num}/{q.den}")])
 
